@@ -94,7 +94,7 @@ func genC17(t *rapid.T) C17Case {
 	nops, kinds := rapid.IntRange(1, 12).Draw(t, "nops"), []string{"nowait", "nowait", "nowait", "wait", "waitacks", "waitacks", "getrules", "setpid", "setpidwait"}
 	if rapid.IntRange(0, 11).Draw(t, "longrun") == 0 {
 		// dozens to hundreds of unacknowledged requests on one client before anybody waits
-		nops = rapid.SampledFrom([]int{66, 65, 64, 130, 257, 300, 33}).Draw(t, "runlen")
+		nops = rapid.SampledFrom([]int{66, 65, 64, 130, 257, 300, 33, 1025}).Draw(t, "runlen")
 		kinds = []string{"nowait", "nowait", "nowait", "nowait", "nowait", "nowait", "nowait", "nowait", "nowait", "nowait", "nowait", "nowait", "nowait", "nowait", "nowait", "nowait", "nowait", "nowait", "nowait", "waitacks"}
 	}
 	for i, n := 0, nops; i < n; i++ {
